@@ -156,4 +156,28 @@ def run(item, ctx, tier, seed):
                         ctx.fail("reversal-eer-value", case, observed=en_, expected=e)
                     if not abs(tn_ + t) <= 1e-6 * rng_:
                         ctx.fail("reversal-eer-threshold", case, observed=tn_, expected=-t)
+    if item["grid"] == "irregular" and tie_free and len(pos) + len(neg) <= 6:
+        # bootstrap samples (incl. smoothed ones) and swap() are Scores objects: the crossing clauses apply to
+        # every derived object that is itself tie-free
+        from mc.derived import derived_objects
+        import numpy as np
+
+        for cfg in ot.CFGS[::3]:
+            s0 = Scores(pos[::-1], neg[::-1], nb_easy_pos=1, nb_easy_neg=0, score_class=cfg[0], equal_class=cfg[1])
+            for how, d in derived_objects(s0, seed):
+                dp, dn = np.asarray(d.pos, dtype=float).tolist(), np.asarray(d.neg, dtype=float).tolist()
+                if not dp or not dn or len(set(dp + dn)) != len(dp) + len(dn):
+                    continue
+                case = {"source_pos": pos, "source_neg": neg, "cfg": cfg, "derived": how, "pos": dp, "neg": dn}
+                ctx.state()
+                ok, res = guarded(ctx, "eer-derived", case, d.eer)
+                ctx.tick()
+                if not ok:
+                    continue
+                t, e = float(res[0]), float(res[1])
+                fpr, fnr = float(d.fpr(t)), float(d.fnr(t))
+                NP, NN = len(dp) + int(d.nb_easy_pos), len(dn) + int(d.nb_easy_neg)
+                if not (abs(fpr - e) <= 1.0 / NN + 1e-9 and abs(fnr - e) <= 1.0 / NP + 1e-9):
+                    ctx.fail("crossing-point-on-derived-object", case, observed={"t": t, "eer": e, "fpr": fpr, "fnr": fnr},
+                             expected="within one sample")
     ctx.sample({"blocks": item["blocks"], "grid": item["grid"], "pos": pos, "neg": neg, "tie_free": tie_free})
